@@ -244,6 +244,27 @@ def synthetic_case(p, res):
                 bits.append(list(pat))
                 rows.append(torch.tensor([(1 - 2 * t) * mag * (1 + 0.001 * i) for i, t in enumerate(pat)], dtype=torch.float32))
         feed_consumers(rows, bits, mag, res, "synthetic", f"synthetic,mag={mag}")
+    # whole batches: every word of length L together with its complement (so that the tensor as a whole holds both bit values in equal numbers at one
+    # magnitude - the domain on which the data-adaptive consumers are decidable), including the constant rows 00..0 / 11..1; and all 2^L words at once
+    for mag in (1e-3, 1.0, 1e3):
+        for L in (1, 2, 3, 4):
+            pats = [list(p_) for p_ in product([0, 1], repeat=L)]
+            batches = [[p_, [1 - t for t in p_]] for p_ in pats] + [pats]
+            for rows_b in batches:
+                X = torch.tensor([[(1 - 2 * t) * mag for t in r_] for r_ in rows_b], dtype=torch.float32)
+                for name, (mk, rule) in stateless_consumers().items():
+                    if rule == "ge1" and mag < 1.0:
+                        continue
+                    try:
+                        out = mk()(X)
+                    except Exception as e:  # noqa: BLE001
+                        res.viol(name, f"synthetic-batch,mag={mag}", "raises", f"batch of {len(rows_b)} words of length {L}: {type(e).__name__}: {str(e)[:160]}")
+                        continue
+                    res.ev(len(rows_b), nontrivial=len(rows_b), transitions=1)
+                    got = [[float(o) for o in r_] for r_ in out.reshape(len(rows_b), L).tolist()]
+                    if got != [[float(t) for t in r_] for r_ in rows_b]:
+                        i = next(i for i in range(len(rows_b)) if got[i] != [float(t) for t in rows_b[i]])
+                        res.viol(name, f"synthetic-batch,mag={mag}", "polarity", f"batch {rows_b} at magnitude {mag}: row {i} (bits {rows_b[i]}) -> {got[i]}", {"bits": rows_b[i]})
     # LLR -> probability conversions are monotone
     from kaira.models.binary import soft_bit_thresholding as S
     soft = S.LLRThresholder(output_type=S.OutputType.SOFT)
